@@ -13,7 +13,7 @@ BUDGET = {'quick': 60, 'thorough': 570}
 
 # events whose last element is the "notification delivered at once" flag;
 # leaving it queued (0) is one deviation (DESIGN 2.2)
-_FLAGGED = ('rdy', 'put', 'del', 'fin')
+_FLAGGED = ('rdy', 'put', 'del', 'rep', 'fin')
 
 
 class NodeSpec(statex.Spec):
@@ -33,7 +33,9 @@ class NodeSpec(statex.Spec):
         return world.canon()
 
     def dev_cost(self, event):
-        return 1 if event[0] in _FLAGGED and not event[-1] else 0
+        if event[0] == 'dlv':
+            return 1 if len(event) > 1 else 0       # crash point
+        return 1 if event[0] in _FLAGGED and event[-1] != 1 else 0
 
     def probe(self, history):
         w = statex.build(self, history)
@@ -53,12 +55,14 @@ def configs(ctx, salt=None):
         cfg = {'salt': salt, 'keys': ('a', 'b'),
                'maxgen': {'a': 2, 'b': 2},
                'bad': {'a': (0,), 'b': (0, 1)},
-               'fin': ('exit',), 'late_tomb': False, 'boot': True}
+               'fin': ('exit',), 'late_tomb': False, 'boot': True,
+               'rep': True, 'crash_points': 2}
         return [('N2x2', cfg, 7, 2)]
     cfg = {'salt': salt, 'keys': ('a', 'b'),
            'maxgen': {'a': 2, 'b': 2},
            'bad': {'a': (0,), 'b': (0, 1)},
-           'fin': ('exit', 'abort', 'oom'), 'late_tomb': True, 'boot': True}
+           'fin': ('exit', 'abort', 'oom'), 'late_tomb': True, 'boot': True,
+           'rep': True, 'crash_points': 3}
     return [('N2x2', cfg, 9, 2)]
 
 
